@@ -257,6 +257,41 @@ class CFile:
             off = self.text.rfind("\n", 0, pos) + 1
         self.insert(off, stmt.rstrip() + "\n", "anchor:%s:%s" % (fname, anchor[:30]))
 
+    def stmt_end(self, i):
+        """index of the last token of the statement that starts at token i"""
+        t = self.toks[i]
+        s = self._s(t)
+        if t[0] == "pp":
+            return self.stmt_end(i + 1)
+        if t[0] == "id" and s in ("for", "while", "if", "switch"):
+            r = self._match(i + 1, "(", ")")
+            j = self.stmt_end(r + 1)
+            if s == "if":
+                k = j + 1
+                while self.toks[k][0] == "pp":
+                    k += 1
+                if self.toks[k][0] == "id" and self._s(self.toks[k]) == "else":
+                    j = self.stmt_end(k + 1)
+            return j
+        if t[0] == "id" and s == "do":
+            j = self.stmt_end(i + 1)
+            r = self._match(j + 2, "(", ")")
+            return r + 1
+        if t[0] == "p" and s == "{":
+            return self._match(i, "{", "}")
+        j, depth = i, 0
+        while True:
+            tt = self.toks[j]
+            if tt[0] == "p":
+                c = self._s(tt)
+                if c in "([{":
+                    depth += 1
+                elif c in ")]}":
+                    depth -= 1
+                elif c == ";" and depth == 0:
+                    return j
+            j += 1
+
     def add_wrap(self, fname, anchor, stmt):
         """anchor is the full text of one simple statement (ending in ';')
         that occurs once in fname; the statement is wrapped as
@@ -264,6 +299,19 @@ class CFile:
         is untouched; needed where the statement is the brace-less branch of
         an if/for."""
         _, _, _, b, e = self.find_function(fname)
+        m = re.match(r"^loopbody#(\d+)$", anchor)
+        if m:
+            # the whole body statement of the N-th loop (for/while)
+            ls = self.loops(fname)
+            n = int(m.group(1))
+            if not (1 <= n <= len(ls)) or ls[n - 1][0] == "do":
+                raise SpliceError("%s: no for/while loop #%d" % (fname, n))
+            off = ls[n - 1][1]
+            ti = next(i for i, t in enumerate(self.toks) if t[1] >= off)
+            te = self.stmt_end(ti)
+            self.insert(self.toks[ti][1], "{ " + stmt.strip() + " ", "wrap-open:%s:%s" % (fname, anchor))
+            self.insert(self.toks[te][2], " }", "wrap-close:%s" % fname)
+            return
         m = re.match(r"^return#(\d+)(?:/(\d+))?$", anchor)
         if m:
             # N-th return statement of the function (optionally: of M in total)
@@ -322,6 +370,60 @@ class CFile:
         if strip(res) != self.text:
             raise SpliceError("identity check failed for %s" % self.name)
         return res
+
+
+def extract_statement(text, fname, anchor):
+    """Return the verbatim text of the complete statement of function fname that
+    starts at the unique occurrence of `anchor` (an if/for/while header or a
+    simple statement): through the matching '}' of its block, or through the ';'
+    that ends it (following an `else` of an `if`)."""
+    cf = CFile(text, "extract")
+    _, _, _, b, e = cf.find_function(fname)
+    lo, hi = cf.toks[b][2], cf.toks[e][1]
+    body = text[lo:hi]
+    if body.count(anchor) != 1:
+        raise SpliceError("%s: extraction anchor %r occurs %d times" % (fname, anchor, body.count(anchor)))
+    start = lo + body.index(anchor)
+    # token index at start
+    ti = next(i for i, t in enumerate(cf.toks) if t[1] >= start)
+
+    def stmt_end(i):
+        t = cf.toks[i]
+        s = cf._s(t)
+        if t[0] == "id" and s in ("for", "while", "if", "switch"):
+            r = cf._match(i + 1, "(", ")")
+            j = stmt_end(r + 1)
+            if s == "if":
+                k = j + 1
+                while cf.toks[k][0] == "pp":
+                    k += 1
+                if cf.toks[k][0] == "id" and cf._s(cf.toks[k]) == "else":
+                    j = stmt_end(k + 1)
+            return j
+        if t[0] == "id" and s == "do":
+            j = stmt_end(i + 1)      # body
+            k = j + 1                # while
+            r = cf._match(k + 1, "(", ")")
+            return r + 1             # ';'
+        if t[0] == "p" and s == "{":
+            return cf._match(i, "{", "}")
+        if t[0] == "pp":
+            return stmt_end(i + 1)
+        j = i
+        depth = 0
+        while True:
+            tt = cf.toks[j]
+            if tt[0] == "p":
+                c = cf._s(tt)
+                if c in "([{":
+                    depth += 1
+                elif c in ")]}":
+                    depth -= 1
+                elif c == ";" and depth == 0:
+                    return j
+            j += 1
+    end_tok = stmt_end(ti)
+    return text[start:cf.toks[end_tok][2]]
 
 
 _strip_re = re.compile(re.escape(OPEN) + r".*?" + re.escape(CLOSE), re.S)
